@@ -137,7 +137,7 @@ def spec_configs(tier: str) -> List[Any]:
             if getattr(c, "grammar", None) is not None:
                 if c.db == "Forest":
                     keep.append(c)
-            elif c.pack in ("base", "norm+sym", "inf2", "rfac") and c.db in ("RuleDB", "Forest"):
+            elif c.pack in ("base", "norm+sym", "inf2", "rfac", "rfswap", "norm+atomlast", "oneway+inf1") and c.db in ("RuleDB", "Forest"):
                 keep.append(c)
         cfgs = keep
     return cfgs
